@@ -547,6 +547,9 @@ func quoteIdentifier(sb *strings.Builder, name string) {
 	for _, b := range []byte(name) {
 		if b == '"' {
 			sb.WriteString(quoteEscape)
+		} else if b == '\\' {
+			// ClickHouse processes backslash escapes inside quoted identifiers.
+			sb.WriteString(`\\`)
 		} else {
 			sb.WriteByte(b)
 		}
@@ -1072,6 +1075,9 @@ func quoteSQLString(sb *strings.Builder, s string) {
 	for _, b := range []byte(s) {
 		if b == '\'' {
 			sb.WriteString("''")
+		} else if b == '\\' {
+			// ClickHouse processes backslash escapes inside string literals.
+			sb.WriteString(`\\`)
 		} else {
 			sb.WriteByte(b)
 		}
